@@ -351,13 +351,22 @@ Qed.
 Theorem snooze_inv c idx : Inv c -> Inv (snooze_op c idx).
 Proof. intros HI. unfold snooze_op. destruct idx; exact HI. Qed.
 
+(* untracking touches nothing the clock looks at *)
+Theorem untrack_inv c idx : Inv c -> Inv (untrack_op c idx).
+Proof. intros HI. exact HI. Qed.
+Lemma wf_untrack c idx : WF c -> WF (untrack_op c idx).
+Proof. intros H. exact H. Qed.
+Lemma active_untrack c idx : active (untrack_op c idx) = active c.
+Proof. reflexivity. Qed.
+
 (* ================= histories of StepForward / Create / Snooze ================= *)
 Lemma apply_op_consts c o c1 : apply_op c o = Ok c1 -> E c1 = E c /\ m c1 = m c /\ std c1 = std c.
 Proof.
-  destruct o as [req|n|idx]; simpl; intros H.
+  destruct o as [req|n|idx|idx]; simpl; intros H.
   - now apply (step_forward_consts req).
   - inversion H. auto.
   - inversion H. unfold snooze_op. destruct idx; auto.
+  - inversion H. auto.
 Qed.
 
 (* every StepForward of the history is taken with non-negative requests and under [step_guard] *)
@@ -372,11 +381,12 @@ Lemma apply_op_inv c o c1 : 0 < m c -> Inv c ->
   match o with StepForward req => req_ok c req /\ step_guard c | _ => True end ->
   apply_op c o = Ok c1 -> Inv c1.
 Proof.
-  intros Hm HI Hg H. destruct o as [req|n|idx]; simpl in H.
+  intros Hm HI Hg H. destruct o as [req|n|idx|idx]; simpl in H.
   - destruct Hg as [Hreq Hg]. apply (step_forward_establishes_inv req c c1 Hm Hreq Hg); [|exact H].
     intros _. now destruct HI.
   - inversion H. now apply create_inv.
   - inversion H. now apply snooze_inv.
+  - inversion H. now apply untrack_inv.
 Qed.
 
 Theorem invariant_history ops : forall c c', 0 < m c -> Inv c -> guards c ops -> run_ops c ops = Ok c' -> Inv c'.
@@ -390,10 +400,11 @@ Qed.
 
 Lemma apply_op_wf c o c1 : WF c -> apply_op c o = Ok c1 -> WF c1.
 Proof.
-  intros Hwf H. destruct o as [req|n|idx]; simpl in H.
+  intros Hwf H. destruct o as [req|n|idx|idx]; simpl in H.
   - now apply (wf_step_forward req c).
   - inversion H. now apply wf_create.
   - inversion H. now apply wf_snooze.
+  - inversion H. now apply wf_untrack.
 Qed.
 
 Theorem wf_history ops : forall c c', WF c -> run_ops c ops = Ok c' -> WF c'.
@@ -454,22 +465,23 @@ Lemma run_events_spec acts : forall c c1 idxs, run_events c acts = (c1, idxs) ->
 Proof.
   induction acts as [|a r IH]; intros c c1 idxs H; simpl in H.
   - inversion H; subst. split; [reflexivity | intros idx []].
-  - destruct (run_events (create (snooze_op c (sn a)) (births a)) r) as [c2 idxs'] eqn:E2. inversion H; subst.
+  - destruct (run_events (ev_apply c a) r) as [c2 idxs'] eqn:E2. inversion H; subst.
     destruct (IH _ _ _ E2) as [Hops Hidx]. split; [simpl; exact Hops|].
     intros idx [<-|Hin].
     + exists c, []. rewrite app_nil_r. split; [reflexivity|]. split; [reflexivity|]. split; [reflexivity|].
       split; [reflexivity|]. split; auto.
     + destruct (Hidx idx Hin) as [ck [extra [Ha [HT [HS [Hrows [HI Hwf]]]]]]].
-      set (cm := create (snooze_op c (sn a)) (births a)) in *.
+      set (cm := ev_apply c a) in *.
       assert (Hrm : exists ex0, rows cm = rows c ++ ex0).
-      { unfold cm, create, set_clk; cbn [rows]. unfold snooze_op. destruct (sn a); cbn [rows set_clk]; eexists; reflexivity. }
+      { unfold cm, ev_apply, create, untrack_op, set_clk; cbn [rows]. unfold snooze_op.
+        destruct (sn a); cbn [rows set_clk]; eexists; reflexivity. }
       destruct Hrm as [ex0 Hrm]. exists ck, (ex0 ++ extra). rewrite app_assoc, <- Hrm.
       assert (HTm : T cm = T c /\ S cm = S c).
-      { unfold cm, create, set_clk; cbn [T S]. unfold snooze_op. destruct (sn a); auto. }
+      { unfold cm, ev_apply, create, untrack_op, set_clk; cbn [T S]. unfold snooze_op. destruct (sn a); auto. }
       destruct HTm as [HTm HSm]. split; [exact Ha|]. split; [congruence|]. split; [congruence|].
       split; [congruence|]. split.
-      * intros HI0. apply HI. unfold cm. apply create_inv. now apply snooze_inv.
-      * intros Hwf0. apply Hwf. unfold cm. apply wf_create. now apply wf_snooze.
+      * intros HI0. apply HI. unfold cm, ev_apply. apply create_inv. apply untrack_inv. now apply snooze_inv.
+      * intros Hwf0. apply Hwf. unfold cm, ev_apply. apply wf_create. apply wf_untrack. now apply wf_snooze.
 Qed.
 
 Lemma run_events_consts acts : forall c c1 idxs, run_events c acts = (c1, idxs) ->
@@ -477,15 +489,15 @@ Lemma run_events_consts acts : forall c c1 idxs, run_events c acts = (c1, idxs) 
 Proof.
   induction acts as [|a r IH]; intros c c1 idxs H; simpl in H.
   - inversion H; subst. auto 10.
-  - destruct (run_events (create (snooze_op c (sn a)) (births a)) r) as [c3 idxs'] eqn:E3. inversion H; subst.
+  - destruct (run_events (ev_apply c a) r) as [c3 idxs'] eqn:E3. inversion H; subst.
     destruct (IH _ _ _ E3) as [g1 [g2 [g3 [g4 [g5 [g6 g7]]]]]].
-    assert (Hcm : forall cm, cm = create (snooze_op c (sn a)) (births a) ->
+    assert (Hcm : forall cm, cm = ev_apply c a ->
                   E cm = E c /\ m cm = m c /\ std cm = std c /\ T cm = T c /\ S cm = S c).
-    { intros cm ->. unfold create, set_clk, snooze_op; destruct (sn a); cbn; auto 10. }
+    { intros cm ->. unfold ev_apply, create, untrack_op, set_clk, snooze_op; destruct (sn a); cbn; auto 10. }
     destruct (Hcm _ eq_refl) as [h1 [h2 [h3 [h4 h5]]]].
     split; [congruence|]. split; [congruence|]. split; [congruence|]. split; [congruence|]. split; [congruence|]. split.
-    + intros HI. apply g6. apply create_inv. now apply snooze_inv.
-    + intros Hwf. apply g7. apply wf_create. now apply wf_snooze.
+    + intros HI. apply g6. unfold ev_apply. apply create_inv. apply untrack_inv. now apply snooze_inv.
+    + intros Hwf. apply g7. unfold ev_apply. apply wf_create. apply wf_untrack. now apply wf_snooze.
 Qed.
 
 Lemma engine_step_as_ops z req c acts c' idxs : engine_step z req c acts = Ok (c', idxs) ->
@@ -563,7 +575,7 @@ Qed.
 Lemma apply_op_keeps_far c o c1 r : apply_op c o = Ok c1 -> In r (rows c) ->
   match o with StepForward _ => T c + S c < nxt r | _ => True end -> In r (rows c1).
 Proof.
-  intros H Hr Hfar. destruct o as [req|n|idx]; simpl in H.
+  intros H Hr Hfar. destruct o as [req|n|idx|idx]; simpl in H; [| | |inversion H; exact Hr].
   - destruct (step_forward_cases req c c1 H) as [[E0 _]|[[_ [_ ->]]|[_ [_ [_ ->]]]]]; cbn [rows set_clk].
     + rewrite E0 in Hr. contradiction.
     + exact Hr.
@@ -627,7 +639,8 @@ Qed.
 (* F-A (repaired by commit 47eaecae): under the old guard (Index.any(): truthiness of labels) the population {0} with a
    3-tick modifier keeps the 1-tick step and its clock row is never updated: the invariant breaks *)
 Definition c_single0 : clk :=
-  {| T := 0; S := 1; E := 10; m := 1; std := 1; rows := [ {| lbl := 0; nxt := 1; stp := 1 |} ]; snooze := [] |}.
+  {| T := 0; S := 1; E := 10; m := 1; std := 1; rows := [ {| lbl := 0; nxt := 1; stp := 1 |} ]; snooze := [];
+     untracked := [] |}.
 Lemma inv_c_single0 : Inv c_single0.
 Proof.
   unfold Inv, c_single0; simpl. split; [lia|]. split; [|reflexivity]. intros r [<-|[]]; simpl; lia.
@@ -654,7 +667,7 @@ Qed.
 (* F-B (repaired by commit 58535de7): InteractiveContext.step used to put the pre-step global step back always *)
 Definition c_two : clk :=
   {| T := 0; S := 1; E := 20; m := 1; std := 1;
-     rows := [ {| lbl := 0; nxt := 1; stp := 1 |}; {| lbl := 1; nxt := 1; stp := 1 |} ]; snooze := [] |}.
+     rows := [ {| lbl := 0; nxt := 1; stp := 1 |}; {| lbl := 1; nxt := 1; stp := 1 |} ]; snooze := []; untracked := [] |}.
 Lemma inv_c_two : Inv c_two.
 Proof.
   unfold Inv, c_two; simpl. split; [lia|]. split; [|reflexivity]. intros r [<-|[<-|[]]]; simpl; lia.
@@ -672,7 +685,6 @@ Proof.
 Qed.
 
 (* ================= drivers: run() = engine steps; take_steps = InteractiveContext steps ================= *)
-Definition step_spec := ((Z -> list (option Z)) * list ev_act)%type.
 Fixpoint run_engine (z : bool) (c : clk) (steps : list step_spec) : result clk :=
   match steps with
   | [] => Ok c
@@ -721,4 +733,123 @@ Proof.
       destruct (apply_op c o) as [c2| |] eqn:E2; try discriminate.
       destruct (apply_op_consts c o c2 E2) as [_ [h _]]. rewrite (IHl c2 Hops). exact h. }
     apply (IH c1 c'); [lia | exact HI1 | exact (wf_history _ c c1 Hwf Hops) | exact (Hrest c1 idxs eq_refl) | exact H].
+Qed.
+
+(* ================= untracked simulants: the engine hands the clock the FULL population ================= *)
+Definition lift_untracked (u : list Z) (r : result clk) : result clk :=
+  match r with Ok c' => Ok (with_untracked c' u) | Rejected e => Rejected e | OutOfFuel => OutOfFuel end.
+
+Lemma step_forward_with_untracked req c u :
+  step_forward req (with_untracked c u) = lift_untracked u (step_forward req c).
+Proof.
+  unfold step_forward, with_untracked; cbn [T S rows snooze]. destruct (rows c) as [|r0 rs]; [reflexivity|].
+  destruct (filter _ (r0 :: rs)); [reflexivity|]. destruct (forallb _ (snooze c)); reflexivity.
+Qed.
+
+Definition not_untrack (o : op) : bool := match o with Untrack _ => false | _ => true end.
+Definition erase_untrack (ops : list op) : list op := filter not_untrack ops.
+(* what the clock is made of: everything except the tracked flags *)
+Definition clock_of (r : result clk) : result clk := lift_untracked [] r.
+
+Lemma apply_op_with_untracked c u o : not_untrack o = true ->
+  apply_op (with_untracked c u) o = lift_untracked u (apply_op c o).
+Proof.
+  destruct o as [req|n|idx|idx]; intros H; simpl in *; try discriminate.
+  - apply step_forward_with_untracked.
+  - reflexivity.
+  - unfold snooze_op. destruct idx; reflexivity.
+Qed.
+
+(* whichever simulants are untracked, whenever: clock, global step, both clock columns, pending move-to-end set, errors
+   - the whole schedule - are those of the same history without any untracking *)
+Theorem untracked_never_matters ops : forall c u,
+  clock_of (run_ops c ops) = clock_of (run_ops (with_untracked c u) (erase_untrack ops)).
+Proof.
+  induction ops as [|o r IH]; intros c u.
+  - reflexivity.
+  - destruct (not_untrack o) eqn:En.
+    + unfold erase_untrack. simpl. rewrite En. fold (erase_untrack r). simpl.
+      rewrite (apply_op_with_untracked c u o En). destruct (apply_op c o) as [c1| |]; simpl; [apply IH | reflexivity | reflexivity].
+    + destruct o as [req|n|idx|idx]; try discriminate. unfold erase_untrack. simpl. fold (erase_untrack r).
+      rewrite (IH (untrack_op c idx) u). reflexivity.
+Qed.
+
+(* an untracked simulant is in an event index exactly when its time has been reached, like everybody else *)
+Theorem untracked_in_events c r : WF c -> Inv c -> In r (rows c) -> In (lbl r) (untracked c) ->
+  (In (lbl r) (active c) <-> nxt r = T c + S c).
+Proof. intros Hwf HI Hr _. now apply wf_active_exact. Qed.
+
+Lemma filter_true {A} (l : list A) : filter (fun _ => true) l = l.
+Proof. induction l as [|x l IH]; simpl; [reflexivity | now rewrite IH]. Qed.
+
+(* the clock on the whole population is the index-restricted clock with nobody left out *)
+Lemma step_forward_on_all req c : step_forward_on (fun _ => true) req c = step_forward req c.
+Proof.
+  unfold step_forward_on, step_forward. rewrite filter_true. destruct (rows c) as [|r0 rs] eqn:ER; [reflexivity|].
+  destruct (filter _ (r0 :: rs)); [reflexivity|]. destruct (forallb _ (snooze c)); [|reflexivity].
+  rewrite filter_true. reflexivity.
+Qed.
+
+(* regression (F-C, repaired by commit a70d8de6): InteractiveContext used to hand the clock the TRACKED simulants only;
+   an untracked simulant's time is then passed without it being updated *)
+Definition c_untracked1 : clk :=
+  {| T := 0; S := 1; E := 20; m := 1; std := 1;
+     rows := [ {| lbl := 0; nxt := 1; stp := 1 |}; {| lbl := 1; nxt := 1; stp := 1 |} ]; snooze := []; untracked := [1] |}.
+Theorem tracked_only_refuted : exists c req c', Inv c /\ WF c /\
+  step_forward_on (is_tracked c) req c = Ok c' /\ (exists r, In r (rows c') /\ nxt r <= T c') /\ ~ Inv c'.
+Proof.
+  exists c_untracked1, (fun _ => [Some 2]). eexists. split; [|split; [reflexivity|split; [reflexivity|split]]].
+  - unfold Inv, c_untracked1; simpl. split; [lia|]. split; [|reflexivity]. intros r [<-|[<-|[]]]; simpl; lia.
+  - exists {| lbl := 1; nxt := 1; stp := 1 |}. split; [right; left; reflexivity | simpl; lia].
+  - intros [_ [H _]]. specialize (H {| lbl := 1; nxt := 1; stp := 1 |} (or_intror (or_introl eq_refl))). simpl in H. lia.
+Qed.
+
+(* ================= run_until / run_for / run ================= *)
+Lemma engine_step_T z req c acts c' idxs : engine_step z req c acts = Ok (c', idxs) -> T c' = T c + S c.
+Proof.
+  unfold engine_step. destruct (z && _); [discriminate|]. destruct (run_events c acts) as [c1 idxs1] eqn:E1.
+  destruct (step_forward req c1) as [c2| |] eqn:E2; try discriminate. intros H; inversion H; subst.
+  rewrite (step_forward_T req c1 c' E2). destruct (run_events_consts acts c c1 _ E1) as [_ [_ [_ [-> [-> _]]]]]. reflexivity.
+Qed.
+
+(* every step moves the clock forward *)
+Theorem engine_step_progress z req c acts c' idxs : Inv c -> engine_step z req c acts = Ok (c', idxs) -> T c < T c'.
+Proof. intros [Hs _] H. rewrite (engine_step_T _ _ _ _ _ _ H). lia. Qed.
+
+Theorem run_until_spec z e steps : forall c c' n, run_until z e c steps = Ok (c', n) ->
+  e <= T c' /\ (n <= length steps)%nat /\ run_engine z c (firstn n steps) = Ok c' /\
+  forall k ck, (k < n)%nat -> run_engine z c (firstn k steps) = Ok ck -> T ck < e.
+Proof.
+  induction steps as [|[req acts] r IH]; intros c c' n H; simpl in H.
+  - destruct (Z.ltb_spec (T c) e); [discriminate|]. inversion H; subst.
+    split; [assumption|]. split; [simpl; lia|]. split; [reflexivity|]. intros k ck Hk. lia.
+  - destruct (Z.ltb_spec (T c) e) as [Hlt|Hge].
+    + destruct (engine_step z req c acts) as [[c1 idxs]| |] eqn:E1; try discriminate.
+      destruct (run_until z e c1 r) as [[c2 n']| |] eqn:E2; try discriminate. inversion H; subst.
+      destruct (IH c1 c' n' E2) as [h1 [h2 [h3 h4]]]. split; [exact h1|]. split; [simpl; lia|]. split.
+      * simpl. rewrite E1. exact h3.
+      * intros k ck Hk Hrun. destruct k as [|k']; simpl in Hrun.
+        -- inversion Hrun; subst. exact Hlt.
+        -- rewrite E1 in Hrun. apply (h4 k' ck); [lia | exact Hrun].
+    + inversion H; subst. split; [assumption|]. split; [simpl; lia|]. split; [reflexivity|]. intros k ck Hk. lia.
+Qed.
+
+Theorem run_until_noop z e c steps : e <= T c -> run_until z e c steps = Ok (c, O).
+Proof.
+  intros H. destruct steps as [|[req acts] r]; simpl; destruct (Z.ltb_spec (T c) e); try lia; reflexivity.
+Qed.
+
+Lemma engine_guards_firstn z n : forall steps c, engine_guards z c steps -> engine_guards z c (firstn n steps).
+Proof.
+  induction n as [|n IH]; intros steps c Hg; [exact I|]. destruct steps as [|[req acts] r]; [exact I|].
+  simpl in *. destruct Hg as [h1 [h2 h3]]. split; [exact h1|]. split; [exact h2|]. intros c1 idxs H1. apply IH. now apply (h3 c1 idxs).
+Qed.
+
+(* run_until / run_for / run keep the invariant, stop at the first step boundary at or after the end time, never take a
+   step from a boundary at or after it, and return the number of steps taken *)
+Theorem run_until_inv z e steps c c' n : 0 < m c -> Inv c -> WF c -> engine_guards z c steps ->
+  run_until z e c steps = Ok (c', n) -> Inv c' /\ WF c' /\ e <= T c'.
+Proof.
+  intros Hm HI Hwf Hg H. destruct (run_until_spec z e steps c c' n H) as [h1 [_ [h3 _]]].
+  destruct (engine_history z (firstn n steps) c c' Hm HI Hwf (engine_guards_firstn z n steps c Hg) h3) as [a b]. auto.
 Qed.
